@@ -279,6 +279,11 @@ Argument:
             raise UIError(escape_braces(exc.message) + "\n", exc)
         except ValueError as exc:
             raise UIError(escape_braces(str(exc.args[0])) + "\n", exc)
+        except (TypeError, KeyError, AttributeError, OverflowError, RecursionError,
+                RuntimeError, OSError) as exc:
+            # a value of a kind the schema lets through, but that cannot be used where it stands
+            raise UIError("The configuration could not be processed: %s: %s\n"
+                          % (type(exc).__name__, escape_braces(str(exc))), exc)
 
         if args.report_completion:
             return self._report_completion()
